@@ -127,7 +127,7 @@ class TimeRange(object):
         if self.start == 0.0 and self.absolute:
             self.start = None
 
-        if self.end is not None and math.isinf(self.end):
+        if self.end is not None and self.end == math.inf:
             self.end = None
 
         self._range_specified = self.start is not None or self.end is not None
